@@ -278,6 +278,10 @@ class HillClimbSearch(StructureEstimator):
             raise ValueError("fixed_edges must be an iterable")
         else:
             fixed_edges = set(fixed_edges)
+            # The search edits the graph in place; work on a copy of the caller's graph.
+            latents = set(start_dag.latents)
+            start_dag = start_dag.copy()
+            start_dag.latents = latents
             start_dag.add_edges_from(fixed_edges)
             if not nx.is_directed_acyclic_graph(start_dag):
                 raise ValueError(
